@@ -31,39 +31,40 @@ impl TraitHandler for CopyHandler {
 
         let mut field_types = vec![];
 
-        // if `contains_clone` is true, the implementation is handled by the `Clone` attribute, and field attributes is also handled by the `Clone` attribute
+        // the `Copy` attribute cannot be placed on a variant or a field, no matter which handler writes the implementation
+        match &ast.data {
+            Data::Struct(data) => {
+                for field in data.fields.iter() {
+                    field_types.push(&field.ty);
+                    let _ =
+                        FieldAttributeBuilder.build_from_attributes(&field.attrs, traits)?;
+                }
+            },
+            Data::Enum(data) => {
+                for variant in data.variants.iter() {
+                    let _ = TypeAttributeBuilder {
+                        enable_flag: false, enable_bound: false
+                    }
+                    .build_from_attributes(&variant.attrs, traits)?;
+
+                    for field in variant.fields.iter() {
+                        field_types.push(&field.ty);
+                        let _ = FieldAttributeBuilder
+                            .build_from_attributes(&field.attrs, traits)?;
+                    }
+                }
+            },
+            Data::Union(data) => {
+                for field in data.fields.named.iter() {
+                    field_types.push(&field.ty);
+                    let _ =
+                        FieldAttributeBuilder.build_from_attributes(&field.attrs, traits)?;
+                }
+            },
+        }
+
+        // if `contains_clone` is true, the implementation is handled by the `Clone` attribute
         if !contains_clone {
-            match &ast.data {
-                Data::Struct(data) => {
-                    for field in data.fields.iter() {
-                        field_types.push(&field.ty);
-                        let _ =
-                            FieldAttributeBuilder.build_from_attributes(&field.attrs, traits)?;
-                    }
-                },
-                Data::Enum(data) => {
-                    for variant in data.variants.iter() {
-                        let _ = TypeAttributeBuilder {
-                            enable_flag: false, enable_bound: false
-                        }
-                        .build_from_attributes(&variant.attrs, traits)?;
-
-                        for field in variant.fields.iter() {
-                            field_types.push(&field.ty);
-                            let _ = FieldAttributeBuilder
-                                .build_from_attributes(&field.attrs, traits)?;
-                        }
-                    }
-                },
-                Data::Union(data) => {
-                    for field in data.fields.named.iter() {
-                        field_types.push(&field.ty);
-                        let _ =
-                            FieldAttributeBuilder.build_from_attributes(&field.attrs, traits)?;
-                    }
-                },
-            }
-
             let ident = &ast.ident;
 
             let bound =
